@@ -56,12 +56,13 @@ def gen_cases(tier, seed):
                         cases.append(dict(part='transparent', pattern=pattern, n=n, t0=0.0, wa=wa, step=step,
                                           samples=[], models=models, form=form))
     motions = (0, 1, 2)
-    mixes = ('P', 'PV', 'PVB', 'PVs')       # PVs: velocity fixes share their time stamps with position fixes
+    # PVs: velocity fixes share their time stamps with position fixes; P0V: the first position fix is AT the initial time
+    mixes = ('P', 'PV', 'PVB', 'PVs', 'P0V')
     classes = ('bias', 'sm')
     steps = (0.5, 1.0)
     for mo, mix, cl, st, wa in itertools.product(motions, mixes, classes, steps, (True, False)):
         k = motions.index(mo) + mixes.index(mix) + classes.index(cl) + steps.index(st) + int(wa)
-        always = mo == 0 and st == 0.5 and ((mix == 'PVs' and cl == 'bias') or (mix == 'PVB' and cl == 'sm'))
+        always = mo == 0 and st == 0.5 and ((mix in ('PVs', 'P0V') and cl == 'bias') or (mix == 'PVB' and cl == 'sm'))
         if tier == 'quick' and (k + seed) % 4 != 0 and not always:
             continue
         cases.append(dict(part='equivalence', motion=mo, mix=mix, cls=cl, step=st, wa=wa))
@@ -143,9 +144,10 @@ def run_pair(case, s):
     nz = rng.randn(len(ref), 3)
     meas = []
     if 'P' in case['mix']:
-        pm = ref.iloc[20::40]
+        pm = ref.iloc[0::40] if '0' in case['mix'] else ref.iloc[20::40]
         meas.append(measurements.Position(pd.DataFrame(
-            transform.perturb_lla(pm[['lat', 'lon', 'alt']].values, s * 1.0 * nz[20::40]), index=pm.index,
+            transform.perturb_lla(pm[['lat', 'lon', 'alt']].values, s * 1.0 * nz[20::40][:len(pm)] if len(nz[20::40]) >= len(pm)
+                                  else s * 1.0 * nz[:len(pm)]), index=pm.index,
             columns=['lat', 'lon', 'alt']), 1.0 * s))
     if 'V' in case['mix']:
         vm = ref.iloc[20::40] if 's' in case['mix'] else ref.iloc[30::40]
